@@ -82,10 +82,11 @@ def execute(acts, clients, locks, guarded=False):
     try:
         for a in acts:
             exc = False
+            answers = []
             if guarded:
                 # the specification's guards, decided from what the real objects have answered so far
                 k = a[0]
-                if k == 'tryAcquire' and (waiting[a[1]][a[2]] or held[a[1]][a[2]]):
+                if k == 'tryAcquire' and waiting[a[1]][a[2]]:
                     continue
                 if k == 'release' and waiting[a[1]][a[2]]:
                     continue
@@ -103,6 +104,7 @@ def execute(acts, clients, locks, guarded=False):
                     def cb(res, err, c=c, l=l):
                         held[c][l] = bool(res)
                         waiting[c][l] = False
+                        answers.append((c, l, bool(res)))
                     waiting[c][l] = True
                     mgr[c].tryAcquire(l, callback=cb, sync=False)
                 elif k == 'release':
@@ -137,6 +139,9 @@ def execute(acts, clients, locks, guarded=False):
                 rec['held'][c] = {l: bool(held[c][l]) for l in locks}
                 rec['isacq'][c] = {l: bool(mgr[c].isAcquired(l)) for l in locks}
                 rec['qlen'][c] = len(queue[c])
+            rec['lag'] = {c: len(log) - applied[c] for c in clients}
+            rec['yes'] = {c: {l: any(x == (c, l, True) for x in answers) for l in locks} for c in clients}
+            rec['waiting'] = {c: {l: bool(waiting[c][l]) for l in locks} for c in clients}
             steps.append(rec)
     finally:
         for c in clients:
